@@ -14,6 +14,8 @@ class Cfg:
                  p_weird=0.01):
         self.p_reject, self.p_unsafe, self.w_phase = p_reject, p_unsafe, w_phase
         self.phase_reject, self.p_mux, self.p_cross, self.p_weird = phase_reject, p_mux, p_cross, p_weird
+        self.prefer = []        # names that REJECTED calls mentioned: re-used for later components / rails with preference, so that
+                                # anything a rejected call left behind under such a name (a cache entry, a half-made registry key) is met
 
 
 class View:
@@ -36,6 +38,9 @@ class View:
     def fresh(self, rng, cfg, primary, secondary):
         pool = [x for x in primary if x not in self.used]
         alt = [x for x in secondary if x not in self.used]
+        pref = [x for x in getattr(cfg, "prefer", []) if x not in self.used and (x in primary or x in secondary)]
+        if pref and rng.random() < 0.5:
+            return rng.choice(pref)
         if alt and (not pool or rng.random() < cfg.p_cross):
             return rng.choice(alt)
         return rng.choice(pool) if pool else None
